@@ -49,15 +49,27 @@ public:
 		doSort();
 	}
 
-	void splice(const_iterator pos, OrderedQueueList & other, const_iterator it) {
-		super::splice(pos, other, it);
-		doSort();
+	void splice(const_iterator /*pos*/, OrderedQueueList & other, const_iterator it) {
+		// The list is always kept sorted, so the item only has to be put in its place, behind all items
+		// that are not greater. The place is found before anything is changed: if the comparison throws,
+		// the item is not added.
+		const ItemCompare compare {};
+		auto place = this->end();
+		while(place != this->begin()) {
+			auto previous = place;
+			--previous;
+			if(! compare(*it, *previous)) {
+				break;
+			}
+			place = previous;
+		}
+		super::splice(place, other, it);
 	}
 
 private:
-	void doSort() {
-		auto compare = Compare();
-		this->sort([compare](const T & a, const T & b) {
+	struct ItemCompare
+	{
+		bool operator() (const T & a, const T & b) const {
 			// a and b may be empty if they are recycled to free list.
 			if(a.empty()) {
 				if(b.empty()) {
@@ -69,8 +81,12 @@ private:
 				return false;
 			}
 
-			return compare(a.get(), b.get());
-		});
+			return Compare()(a.get(), b.get());
+		}
+	};
+
+	void doSort() {
+		this->sort(ItemCompare());
 	}
 };
 
